@@ -378,6 +378,14 @@ def run_case(cs, rep, lines, pending):
                     rep.fail(f"{what} returned a non-finite point {p}", inp)
                     return
                 m = poly_margin(outer, hole, p)
+                # the Lean model of the even-odd denotation (Model/GeomPoly.lean) must give the same verdict
+                q = (Fr(p[0]), Fr(p[1]))
+                io = poly_contains(outer, q); ih = poly_contains(hole, q) if hole else False
+                want = "edge" if (io is None or ih is None) else ("1" if (io and not ih) else "0")
+                lines.append("poly " + common.lst(outer, lambda v: common.q(v[0]) + " " + common.q(v[1])) + " "
+                             + common.lst(hole or [], lambda v: common.q(v[0]) + " " + common.q(v[1])) + " " + common.q(q[0]) + " " + common.q(q[1]))
+                pending.append(lambda rl, want=want, p=p: (rep.count("polygon:lean-model-agrees") if rl == want else
+                                                            rep.disagree("even-odd polygon oracle: harness and Lean model (Model/GeomPoly.lean) differ", inp, want, rl)))
                 if m < -EPS or (cs["part"] == "boundary" and m > EPS):
                     rep.fail(f"{what} returned the point {p}: " + ("outside the polygon" if m < 0 else "in the interior, not on the boundary")
                              + f" (even-odd rule in exact arithmetic; distance to the nearest edge {abs(m):.4g} relative to the size)", inp,
